@@ -259,10 +259,9 @@ def _body_paths(check):
     from . import c15
     n0 = len(check.obs)
     lay = check.guarded("LAYOUT-AGREE", "modeldisc.fvm2dcart", lambda: c15.layout_agree(check))
-    for o in check.obs[n0:]:
-        if o.rule == "LAYOUT-AGREE" and o.status == "violation":
-            # a mis-indexed 2D slice moves data between entries; constant data may survive it: not decided here
-            o.status = "undecided"
+    # (a mis-indexed 2D slice may only move constant data between entries -- harmless -- or leave
+    # entries unwritten at their initial zero -- not harmless; the decoder cannot tell which after a
+    # mismatch, so the mismatch itself is reported)
     if lay:
         check.guarded("RECON-CONST", "xnum.extrapol2d*", lambda: c15.const_2d(check))
         check.guarded("BC-2D-SITE", "modeldisc.fvm2dcart.calc_bc", lambda: c15.bc_sites(check))
